@@ -215,10 +215,27 @@ def check_pair_predicate(ctx, rid):
     pf = bas.func("Parser.forward")
     defs = _defs(pf)
     pairs_def = defs.get("pairs", [])
-    if len(pairs_def) != 1:
-        raise AnalysisError("Parser.forward: `pairs` is not defined exactly once")
-    pst = [st for st in ast.walk(pf) if isinstance(st, ast.Assign) and norm(st.targets[0]) == "pairs"][0]
-    factors = _flatten_product(pairs_def[0])
+    if not pairs_def:
+        raise AnalysisError("Parser.forward: `pairs` is not defined")
+    psts = sorted([st for st in ast.walk(pf) if isinstance(st, ast.Assign) and norm(st.targets[0]) == "pairs"], key=lambda s_: s_.lineno)
+    pst = psts[0]
+    # `pairs` may be refined by later statements (pairs = pairs * extra): compose the factors in source order and remember under
+    # which conditions each refinement applies -- a cutoff that is only applied under a condition is not "exactly the pairs beyond it"
+    from ..guards import controlling as _controlling
+    factors = []
+    conditional = {}
+    base_ctrl = {norm(a) for a, p_, _ in _controlling(bas, psts[0], stop=pf)}
+    for st_ in psts:
+        fs = _flatten_product(st_.value)
+        extra_ctrl = [(norm(a), p_) for a, p_, _ in _controlling(bas, st_, stop=pf) if norm(a) not in base_ctrl]
+        for f_ in fs:
+            if isinstance(f_, ast.Name) and f_.id == "pairs" and st_ is not psts[0]:
+                continue
+            factors.append(f_)
+            if extra_ctrl:
+                conditional[id(f_)] = extra_ctrl
+    defs = dict(defs)
+    defs["pairs"] = []
 
     def coord_dep(e):
         def pred(n):
@@ -262,6 +279,41 @@ def check_pair_predicate(ctx, rid):
     for f, fx in kinds.get("other", []):
         ctx.fail(rid, bas, pst, "Parser.forward", f"pairs factor {norm(f)}", f"the pair list is additionally filtered by `{norm(f)}` (= {short(norm(fx))}): pairs are dropped for a reason other than the documented cutoff")
     cut = kinds.get("cutoff", [])
+    def exact_shortcut(cond_list):
+        """the refinement is skipped only when the largest pair distance itself is below the cutoff"""
+        for txt_, pol_ in cond_list:
+            try:
+                e_ = ast.parse(txt_, mode="eval").body
+            except SyntaxError:
+                return False
+            if not (isinstance(e_, ast.Compare) and len(e_.ops) == 1):
+                return False
+            l_, r_ = e_.left, e_.comparators[0]
+            if isinstance(e_.ops[0], (ast.Lt, ast.LtE)):
+                l_, r_ = r_, l_
+            elif not isinstance(e_.ops[0], (ast.Gt, ast.GtE)):
+                return False
+            if not pol_:
+                return False
+            # l_ must be <radial form>.max() / torch.max(<radial form>)
+            inner = None
+            if isinstance(l_, ast.Call) and callee_attr(l_) in ("max", "amax") and isinstance(l_.func, ast.Attribute):
+                inner = l_.func.value
+            elif isinstance(l_, ast.Call) and (call_name(l_) or "") in ("torch.max", "torch.amax") and l_.args:
+                inner = l_.args[0]
+            deg_ = radial_degree(inner, defs, is_raw_diff) if inner is not None else None
+            rt_ = norm(r_).replace(" ", "")
+            if deg_ == 2 and rt_ in ("self.outercutoff**2", "self.outercutoff*self.outercutoff"):
+                continue
+            if deg_ == 1 and rt_ == "self.outercutoff":
+                continue
+            return False
+        return True
+    for f, fx in cut:
+        if id(f) in conditional and not exact_shortcut(conditional[id(f)]):
+            ctx.fail(rid, bas, pst, "Parser.forward", f"cutoff factor under {conditional[id(f)]}",
+                     f"the cutoff test `{short(norm(fx))}` is applied only when {conditional[id(f)]} holds: whenever that shortcut condition misjudges the geometry "
+                     f"(e.g. a bounding-box extent instead of the largest pair distance) pairs beyond the cutoff are kept")
     if len(cut) != 1:
         ctx.fail(rid, bas, pst, "Parser.forward", "pairs: cutoff factor", f"{len(cut)} coordinate-dependent factors select pairs ({[norm(c[0]) for c in cut]}); exactly one cutoff test is documented")
     else:
@@ -325,6 +377,7 @@ def run(ctx):
     ctx.rule("R1", "pair-list predicate: ordering x nonblank x (radial distance form < cutoff of the same power); default cutoff infinite")
     ctx.rule("R2", "every diatomic overlap call is restricted to pairs within overlap_cutoff (40 bohr)")
     ctx.rule("R3", "threshold inventory: no other comparison of an interatomic distance against a symbolic or > 1 bound")
+    ctx.rule("R5", "every evaluation re-applies the cutoff: a geometry refresh that keeps the old pair list is unreachable (or restricted to the infinite cutoff)")
     ctx.rule("R4", "long-range balance: e1b/e2a = -Z_partner (mu nu|ss) from the same w; core-core -> Z_A Z_B gamma_ss; corrections vanish at infinity")
 
     # ------------------------------------------------------------------ R1
@@ -524,5 +577,53 @@ def run(ctx):
                   f"{method}, X-H={xh}: E_nuc - Z_i Z_j gamma = o(r^-6) (exponential / Gaussian corrections)",
                   f"{method}, X-H={xh}: the core-core correction terms decay like r^6 * resid -> {lim}; a long-range tail is added to the interaction of neutral fragments")
     ctx.floor("R4", 33 * 2 + 2 + 12)
-    ctx.note("Latent (not a violation): Energy._refresh_md_geometry keeps the pair list and only refreshes xij/rij; it is unreachable through "
+    # ------------------------------------------------------------------ R5
+    bas = repo.mod(BASICS)
+    keepers = []
+    for qual, func in bas.functions.items():
+        # functions that recompute rij/xij from stored idxi/idxj (the pair list itself is not rebuilt)
+        stores = {norm(t) for st in ast.walk(func) if isinstance(st, ast.Assign) for t in st.targets}
+        if any(t.endswith(".rij") for t in stores) and any(t.endswith(".xij") for t in stores) and not any(t.endswith(".idxi") for t in stores) \
+                and any(isinstance(x, ast.Attribute) and x.attr == "idxi" for x in ast.walk(func)):
+            keepers.append((qual, func))
+    for qual, func in keepers:
+        short_name = qual.split(".")[-1]
+        for cq, cf in bas.functions.items():
+            for c in calls_in(cf):
+                if callee_attr(c) != short_name or bas.qualname_of(c) != cq:
+                    continue
+                from ..guards import controlling as _ctl
+                ctrl = _ctl(bas, bas.enclosing_stmt(c), stop=cf)
+                cdefs = _defs(cf)
+                conj = []
+                for a, pol, _ in ctrl:
+                    if pol and isinstance(a, ast.Name) and len(cdefs.get(a.id, [])) == 1:
+                        v = cdefs[a.id][0]
+                        conj += list(v.values) if isinstance(v, ast.BoolOp) and isinstance(v.op, ast.And) else [v]
+                    else:
+                        conj.append(a if pol else ast.UnaryOp(op=ast.Not(), operand=a))
+                texts = [norm(x).replace(" ", "") for x in conj]
+                cutoff_guard = any("outercutoff" in t or "pair_outer_cutoff" in t for t in texts)
+                no_kwargs = "notkwargs" in texts
+                # with `not kwargs` the path is dead iff every public caller hands a keyword down that no signature on the way absorbs
+                dead = False
+                why = ""
+                if no_kwargs:
+                    es = repo.mod("seqm/ElectronicStructure.py")
+                    ef = es.func("Electronic_Structure.forward")
+                    chain_params = set()
+                    for q_ in ("Force.forward", "Energy.forward"):
+                        fn_ = bas.func(q_)
+                        chain_params |= {a.arg for a in fn_.args.args + fn_.args.kwonlyargs}
+                    sites = [c2 for c2 in calls_in(ef) if callee_attr(c2) == "conservative_force"]
+                    leftover = [sorted({k.arg for k in c2.keywords if k.arg} - chain_params) for c2 in sites]
+                    dead = bool(sites) and all(leftover)
+                    why = f"every conservative_force call passes keyword(s) {leftover} that Force.forward / Energy.forward do not name, so **kwargs is never empty"
+                ctx.check(cutoff_guard or dead, "R5", bas, c, cq, f"{short_name}(...) under {texts[:3]}",
+                          f"{qual} (keeps the pair list, refreshes only rij/xij) is " + ("restricted to the infinite cutoff" if cutoff_guard else f"unreachable from Electronic_Structure.forward: {why}"),
+                          f"{cq} can take the {short_name} shortcut (conditions {texts}) which keeps the pair list of an earlier geometry and only refreshes distances: with a finite "
+                          f"pair_outer_cutoff, pairs that cross the cutoff during MD stay ignored / stay included")
+    if not keepers:
+        ctx.ok("R5", "seqm/basics.py", "no geometry refresh keeps a stale pair list")
+    ctx.note("Energy._refresh_md_geometry keeps the pair list and only refreshes xij/rij; it is unreachable through "
              "Electronic_Structure.forward at this commit because xl_bomd_params always arrives as a keyword, which disables the static path.")
